@@ -7,7 +7,7 @@ git apply --check $patch || { echo "patch does not apply"; exit 3; }
 git apply $patch
 for id in "$@"; do
   out=$(cd /verif && VERIF_SEED=${VERIF_SEED:-11} ./check $id quick 2>&1); rc=$?
-  if [ $rc -eq 1 ]; then echo "CAUGHT by $id :: $(echo "$out" | grep -m1 -E 'first:|probe .* failed|extra stage' | cut -c1-260)";
+  if [ $rc -eq 1 ]; then echo "CAUGHT by $id :: $(echo "$out" | grep -m1 -E 'first:|probe .* failed|extra stage|does not terminate' | cut -c1-260)";
   elif [ $rc -eq 0 ]; then echo "MISSED by $id";
   else echo "INFRA($rc) $id :: $(echo "$out" | tail -2 | cut -c1-200)"; fi
 done
